@@ -1,7 +1,192 @@
-(* C01 - placeholder while the check is brought up; replaced by the property theorems. *)
-From Coq Require Import NArith.
-From V Require Import model.EncConfig.
+(* C01 - streaming compression round-trips for every input, setting and call history.
+   Property theorems only; every proof is `exact <lemma>`.
+
+   What is proved here (about the models under coq/model, whose literals are regenerated from
+   /repo/src into gen/GenFormat.v and which are run against the implementation by ./check C01):
+     C01_wrap_mod / C01_wrap_range / C01_wrap_step   WrapPosition, for all positions below 2^64
+     C01_config            every parameter setting reachable through set_parameter yields a consistent
+                           configuration (window, block, ring buffer, distance alphabet vs. every array it indexes)
+     C01_config_asfound_refuted   with the 140-entry histogram the tree had before fix 7003666 this was false
+     C01_ringbuffer        after any sequence of block-sized writes the ring buffer holds the last
+                           min(total, size) input bytes at their masked positions (+ position, tail mirror, wrap bytes)
+     C01_ringbuffer_asfound_refuted   the position fold the tree had before fix dd9b0c6 loses bit 30 under a 31-bit mask
+     C01_header_*          the meta-block header writers are read back by the decoder spec D, for all lengths
+   and what is stated but not proved:
+     C01_stream_roundtrip_modulo_heuristics_stmt   the composition over the stream glue model with the
+                           visible hypothesis that the compression back ends emit meta-blocks that D decodes
+                           to their input slices (translation-validated on every run by ./check C01). *)
+From Coq Require Import NArith ZArith List Bool.
+From V Require Import lib.Words lib.PMap gen.GenFormat spec.RfcTables spec.PrefixCode spec.Decoder
+  model.EncConfig model.RingBuf model.MetaBlockHeader model.Stream
+  proofs.Format_proofs proofs.RingBuf_proofs proofs.MbHeader_proofs proofs.Stream_proofs.
+Import ListNotations.
 Open Scope N_scope.
-Theorem C01_stub : wrap_position 5 = 5.
-Proof. reflexivity. Qed.
-Print Assumptions C01_stub.
+
+(* ---------------------------------------------------------------- (a) WrapPosition *)
+(* the low k bits of the position survive, k <= 30: everything that is indexed with a mask of up
+   to 30 bits (hash tables, ring buffers up to lgwin 29) sees the true position *)
+Theorem C01_wrap_mod : forall p k, p < 2 ^ 64 -> k <= 30 -> wrap_position p mod 2 ^ k = p mod 2 ^ k.
+Proof. exact wrap_mod. Qed.
+Print Assumptions C01_wrap_mod.
+
+(* ... and so do the low 31 bits (the ring-buffer mask of lgwin 30) *)
+Theorem C01_wrap_mod31 : forall p, p < 2 ^ 64 -> wrap_position p mod 2 ^ 31 = p mod 2 ^ 31.
+Proof. exact wrap_mod31. Qed.
+Print Assumptions C01_wrap_mod31.
+
+Theorem C01_wrap_range : forall p, p < 2 ^ 64 ->
+  wrap_position p < 3 * 2 ^ 30 /\ (2 ^ 30 <= p -> 2 ^ 30 <= wrap_position p) /\ (p < 3 * 2 ^ 30 -> wrap_position p = p).
+Proof. exact wrap_range. Qed.
+Print Assumptions C01_wrap_range.
+
+(* monotone: successor to successor, except at the odd multiples (>= 3) of 2^30, where the
+   wrapped position falls from 3*2^30 - 1 back to 2^30 *)
+Theorem C01_wrap_step : forall p, p + 1 < 2 ^ 64 ->
+  wrap_position (p + 1) = wrap_position p + 1 \/
+  (exists j, 1 <= j /\ p + 1 = (2 * j + 1) * 2 ^ 30 /\ wrap_position (p + 1) = 2 ^ 30 /\ wrap_position p = 3 * 2 ^ 30 - 1).
+Proof. exact wrap_step. Qed.
+Print Assumptions C01_wrap_step.
+
+(* ---------------------------------------------------------------- (b) configuration *)
+Theorem C01_config : forall p, reachable p ->
+  config_ok HQ_HIST_DIST_LEN (e_large p) (configure p) /\
+  ((2 <= c_quality (configure p))%Z -> known_hasher (c_hasher (configure p)) = true).
+Proof. exact configure_consistent. Qed.
+Print Assumptions C01_config.
+
+(* the finding (quality 11 + FONT + large window; fixed by 7003666): with the histogram length the
+   cost model had, the statement is false for a reachable setting *)
+Theorem C01_config_asfound_refuted :
+  exists p, reachable p /\ ~ config_ok HQ_SIMPLE_DISTANCE_ALPHABET_SIZE (e_large p) (configure p).
+Proof. exact configure_asfound_refuted. Qed.
+Print Assumptions C01_config_asfound_refuted.
+
+(* non-vacuity: the setting of the finding is reachable and consistent now *)
+Example C01_config_example :
+  let p := set_params [(1, 11); (0, 2); (6, 1); (2, 26)] in
+  reachable p /\ c_alphabet (configure p) = 276 /\ c_np (configure p) = 1 /\ c_nd (configure p) = 12 /\
+  hq_ok (c_alphabet (configure p)) = true /\ c_rbsize (configure p) = 2 ^ 27.
+Proof. vm_compute. repeat split; congruence. Qed.
+
+(* ---------------------------------------------------------------- (c) ring buffer *)
+(* k = ComputeRbBits, lb = lgblock; C01_config gives 1 <= lb, lb + 1 <= k <= 31 for every reachable
+   setting.  Each write is at most one block (remaining_input_block_size in the stream glue). *)
+Theorem C01_ringbuffer : forall k lb, 1 <= lb -> lb + 1 <= k -> k <= 31 -> forall ws,
+  Forall (fun w => RingBuf.lenN w <= 2 ^ lb) ws ->
+  exists r, rb_writes ws (rb_setup k lb) = RbDone r /\
+    let inp := concat ws in let T := RingBuf.lenN inp in
+    N.land (r_pos r) (r_mask r) = N.land T (r_mask r) /\ r_mask r = 2 ^ k - 1 /\
+    (forall p, T - N.min T (2 ^ k) <= p -> p < T -> rb_at r p = nthN inp p) /\
+    (r_cur r = r_total r ->
+       (forall p, 2 ^ k <= p -> T - N.min T (2 ^ k) <= p -> p < T -> p mod 2 ^ k < 2 ^ lb ->
+                  ngetd (r_data r) (2 + 2 ^ k + p mod 2 ^ k) = nthN inp p)
+       /\ ngetd (r_data r) 0 = ngetd (r_data r) (2 ^ k) /\ ngetd (r_data r) 1 = ngetd (r_data r) (2 ^ k + 1)).
+Proof. exact ringbuffer_correct. Qed.
+Print Assumptions C01_ringbuffer.
+
+(* the finding (lgwin 30 beyond 2^31 input bytes; fixed by dd9b0c6) *)
+Theorem C01_ringbuffer_asfound_refuted :
+  exists pos n, pos < 2 ^ 32 /\ n <= 2 ^ 30 /\
+    N.land pos (2 ^ 31 - 1) = N.land (2 ^ 31 - 16384) (2 ^ 31 - 1) /\
+    N.land (fold_pos_asfound pos n) (2 ^ 31 - 1) <> N.land (2 ^ 31 - 16384 + n) (2 ^ 31 - 1) /\
+    N.land (fold_pos pos n) (2 ^ 31 - 1) = N.land (2 ^ 31 - 16384 + n) (2 ^ 31 - 1).
+Proof. exact fold_asfound_refuted. Qed.
+Print Assumptions C01_ringbuffer_asfound_refuted.
+
+Example C01_ringbuffer_example :
+  match rb_writes [[1; 2; 3]; repeat 7 16; repeat 9 5] (rb_setup 5 4) with
+  | RbDone r => rb_at r 23 = 9 /\ rb_at r 3 = 7 /\ N.land (r_pos r) (r_mask r) = 24
+  | RbPanic _ => False
+  end.
+Proof. vm_compute. repeat split; reflexivity. Qed.
+
+(* ---------------------------------------------------------------- (d) header writers vs D *)
+Theorem C01_header_compressed : forall is_final len out rest, 1 <= len -> len <= 2 ^ 24 ->
+  exists h, store_compressed_meta_block_header is_final len out = Some (out ++ h) /\
+            read_mb_header (h ++ rest) = Ok ((is_final, MbData len false), rest).
+Proof. exact compressed_header_roundtrip. Qed.
+Print Assumptions C01_header_compressed.
+
+Theorem C01_header_uncompressed : forall len out rest, 1 <= len -> len <= 2 ^ 24 ->
+  exists h, store_uncompressed_meta_block_header len out = Some (out ++ h) /\
+            read_mb_header (h ++ rest) = Ok ((false, MbData len true), rest).
+Proof. exact uncompressed_header_roundtrip. Qed.
+Print Assumptions C01_header_uncompressed.
+
+Theorem C01_header_empty_last : forall out rest,
+  exists pad, write_empty_last_meta_block out = Some (out ++ [true; true] ++ repeat false pad) /\
+              Nat.modulo (length out + 2 + pad) 8 = 0%nat /\ (pad < 8)%nat /\
+              read_mb_header ([true; true] ++ rest) = Ok ((true, MbEmptyLast), rest).
+Proof. exact empty_last_roundtrip. Qed.
+Print Assumptions C01_header_empty_last.
+
+Theorem C01_var_len_uint8 : forall n out rest, n < 256 ->
+  exists h, store_var_len_uint8 n out = Some (out ++ h) /\ read_1_256 (h ++ rest) = Ok (n + 1, rest).
+Proof. exact var_len_uint8_roundtrip. Qed.
+Print Assumptions C01_var_len_uint8.
+
+(* ---------------------------------------------------------------- (e) the composition *)
+Section Composition.
+  Variable dict_word : N -> N -> list N.
+  Variable transform_tbl : N -> option (list N * N * list N).
+
+  (* one call of a script: operation, bytes offered, output capacity *)
+  Record call := { k_op : opk; k_in : list N; k_cap : N }.
+
+  (* run a script through the model of the stream glue (model/Stream.v); the recorded answers of the
+     back ends sit in the state's oracle.  Result: all calls returned true, final state, bytes emitted. *)
+  Fixpoint run_calls (s : st) (cs : list call) (emitted : list N) : outcome (bool * st * list N) :=
+    match cs with
+    | [] => Done (true, s, emitted)
+    | c :: t =>
+      match compress_stream s (k_op c) (k_in c) (lenN (k_in c)) (k_cap c) with
+      | Done (true, s', x) => if avail_in x =? 0 then run_calls s' t (emitted ++ produced x) else Done (false, s', emitted)
+      | Done (false, s', _) => Done (false, s', emitted)
+      | Panic w => Panic w | Mismatch w => Mismatch w | OutOfFuel => OutOfFuel
+      end
+    end.
+
+  (* the bits one back-end invocation contributes: its output bytes and its carry-out, minus the
+     bits that were carried in *)
+  Definition answer_bits (carry_in_bits : N) (a : answer) : bits :=
+    skipn (N.to_nat carry_in_bits)
+          (flat_map (fun b => N_to_bits 8 b) (a_out a) ++ N_to_bits (N.to_nat (a_lbb a)) (a_lb a)).
+
+  (* THE HEURISTICS HYPOTHESIS, visible: every back-end invocation emits bits that the decoder spec's
+     meta-block loop consumes entirely and decodes to exactly the input slice that invocation was
+     given (from the previous flush position to its new one), whatever came before.  The match
+     finders, block splitter, clustering, Zopfli cost model and the quality-0/1 fragment compressors
+     are NOT proved to satisfy it; ./check C01 validates it on every stream of every run by running
+     the extracted D (and two independent decoders) on the implementation's output. *)
+  Definition backend_faithful (large : bool) (wbits : N) (input : list N) (prev_lfp : N) (carry_in_bits : N) (a : answer) : Prop :=
+    forall (s : dstate) rest,
+      rev' (o_rev (d_out s)) = firstn (N.to_nat prev_lfp) input ->
+      o_pos (d_out s) = prev_lfp ->
+      exists s' j, (j <= length (answer_bits carry_in_bits a))%nat /\
+        loop_n (N.of_nat j) (meta_block dict_word transform_tbl large (2 ^ wbits - 16) (8 * lenN (a_out a) + 64))
+               {| d_out := d_out s; d_ring := d_ring s; d_info := d_info s; d_bits := answer_bits carry_in_bits a ++ rest |}
+          = (if a_is_last a then Stop (StreamDone s') else Continue s') /\
+        d_bits s' = rest /\
+        rev' (o_rev (d_out s')) = firstn (N.to_nat (a_lfp a)) input.
+
+  Fixpoint all_faithful (large : bool) (wbits : N) (input : list N) (prev_lfp carry : N) (l : list answer) : Prop :=
+    match l with
+    | [] => True
+    | a :: t => backend_faithful large wbits input prev_lfp carry a /\ all_faithful large wbits input (a_lfp a) (a_lbb a) t
+    end.
+
+  (* full statement (NOT proved): for every parameter list, every call script that ends with the
+     stream finished and every sequence of faithful back-end answers, the model of the glue runs
+     without panic, every call returns true, and the decoder spec decodes the emitted bytes to the
+     input that was consumed *)
+  Definition C01_stream_roundtrip_modulo_heuristics_stmt : Prop :=
+    forall (params : list (N * N)) (cs : list call) (answers : list answer) s' emitted,
+      let s0 := upd_misc (fold_left (fun s kv => snd (set_parameter s (fst kv) (snd kv))) params init_st) false answers in
+      let input := concat (map k_in (filter (fun c => negb (opk_eqb (k_op c) OpMeta)) cs)) in
+      let s1 := ensure_initialized s0 in
+      all_ok answers ->
+      all_faithful (large_window s1) (Z.to_N (Z.max (lgwin s1) (if ((quality s1 =? 0) || (quality s1 =? 1))%Z then 18 else 0)))
+                   input 0 (last_bytes_bits s1) answers ->
+      run_calls s0 cs [] = Done (true, s', emitted) -> is_finished s' = true ->
+      exists info, decode dict_word transform_tbl true [] emitted = Ok (input, info).
+End Composition.
